@@ -137,11 +137,11 @@ func (n *Net) Gallina() string {
 		var ifs []string
 		for _, f := range a.Ifs {
 			ifs = append(ifs, vgen.App("Network.mkNif", vgen.N(uint64(f.ID)), "Router."+rtgen.LTNames[f.LT],
-				vgen.N(uint64(f.Nbr)), vgen.N(uint64(f.Remote)), vgen.N(uint64(f.Owner)), "true"))
+				IATerm(f.Nbr), vgen.N(uint64(f.Remote)), vgen.N(uint64(f.Owner)), "true"))
 		}
 		svc := vgen.Pair(vgen.N(uint64(addr.SvcCS.Base())),
 			vgen.Pair(vgen.Bytes(a.SvcCS.Addr().AsSlice()), vgen.N(uint64(a.SvcCS.Port()))))
-		as = append(as, vgen.App("Network.mkAs", vgen.N(uint64(a.AS.IA)), vgen.N(uint64(a.KeyID)),
+		as = append(as, vgen.App("Network.mkAs", IATerm(a.AS.IA), vgen.N(uint64(a.KeyID)),
 			vgen.N(uint64(a.NRtr)), vgen.List(ifs), vgen.List([]string{svc}), vgen.N(PortLo), vgen.N(PortHi)))
 	}
 	return vgen.List(as)
@@ -213,27 +213,28 @@ func (w *Walk) macEntries(a *ASNet, in *rtgen.Rec) {
 		m = map[string]string{}
 		w.Macs[a.KeyID] = m
 	}
-	for _, k := range []int{int(in.CurrHF), int(in.CurrHF) + 1} {
-		if k >= len(in.Hops) {
-			continue
+	// the current hop with the SegID as carried and with its MAC prefix folded in; the
+	// next hop (looked at only at a segment change) with the SegID of its own info field
+	add := func(k, j int, fold bool) {
+		if k >= len(in.Hops) || j >= len(in.Infos) {
+			return
 		}
-		h := in.Hops[k]
-		for _, j := range []int{in.InfIndexForHF(k), int(in.CurrINF)} {
-			if j >= len(in.Infos) {
+		h, inf := in.Hops[k], in.Infos[j]
+		sids := []uint16{inf.SegID}
+		if fold {
+			sids = append(sids, inf.SegID^binary.BigEndian.Uint16(h.Mac[:2]))
+		}
+		for _, sid := range sids {
+			key := fmt.Sprint(sid, inf.Timestamp, h.ExpTime, h.ConsIngress, h.ConsEgress)
+			if _, ok := m[key]; ok {
 				continue
 			}
-			inf := in.Infos[j]
-			for _, sid := range []uint16{inf.SegID, inf.SegID ^ binary.BigEndian.Uint16(h.Mac[:2])} {
-				key := fmt.Sprint(sid, inf.Timestamp, h.ExpTime, h.ConsIngress, h.ConsEgress)
-				if _, ok := m[key]; ok {
-					continue
-				}
-				mac := rtgen.MAC(a.Key, sid, inf.Timestamp, h.ExpTime, h.ConsIngress, h.ConsEgress)
-				m[key] = fmt.Sprintf("(Router.macc %d %d %d %d %d %d)", sid, inf.Timestamp, h.ExpTime,
-					h.ConsIngress, h.ConsEgress, mac48(mac[:]))
-			}
+			m[key] = MacEntryTerm(sid, inf.Timestamp, h.ExpTime, h.ConsIngress, h.ConsEgress,
+				rtgen.MAC(a.Key, sid, inf.Timestamp, h.ExpTime, h.ConsIngress, h.ConsEgress))
 		}
 	}
+	add(int(in.CurrHF), int(in.CurrINF), true)
+	add(int(in.CurrHF)+1, in.InfIndexForHF(int(in.CurrHF)+1), false)
 }
 
 // AddMac adds the MAC of one explicit input under the key of a (used for the
@@ -248,8 +249,7 @@ func (w *Walk) AddMac(a *ASNet, sid uint16, ts uint32, exp uint8, in, eg uint16)
 	if _, ok := m[key]; ok {
 		return
 	}
-	mac := rtgen.MAC(a.Key, sid, ts, exp, in, eg)
-	m[key] = fmt.Sprintf("(Router.macc %d %d %d %d %d %d)", sid, ts, exp, in, eg, mac48(mac[:]))
+	m[key] = MacEntryTerm(sid, ts, exp, in, eg, rtgen.MAC(a.Key, sid, ts, exp, in, eg))
 }
 
 func mac48(m []byte) uint64 {
@@ -389,18 +389,18 @@ func (w *Walk) TraceTerm() string {
 		for i, x := range s.SegIDs {
 			sids[i] = uint64(x)
 		}
-		ss = append(ss, vgen.App("Prov.ts", vgen.N(uint64(s.IA)), vgen.N(uint64(s.Rtr)), s.Ing.Gallina(),
+		ss = append(ss, vgen.App("Prov.ts", IATerm(s.IA), vgen.N(uint64(s.Rtr)), s.Ing.Gallina(),
 			vgen.N(uint64(s.Egress)), vgen.B(s.Ext), vgen.N(uint64(s.CI)), vgen.N(uint64(s.CH)), vgen.NList(sids)))
 	}
 	var fin string
 	switch w.Final.Kind {
 	case "delivered":
-		fin = vgen.App("Network.Delivered", vgen.N(uint64(w.Final.IA)), vgen.N(uint64(w.Final.Rtr)),
+		fin = vgen.App("Network.Delivered", IATerm(w.Final.IA), vgen.N(uint64(w.Final.Rtr)),
 			vgen.Bytes(w.Final.IP), vgen.N(uint64(w.Final.Port)))
 	case "stopped":
-		fin = vgen.App("Network.Stopped", vgen.N(uint64(w.Final.IA)), vgen.N(uint64(w.Final.Rtr)), w.Final.Stop)
+		fin = vgen.App("Network.Stopped", IATerm(w.Final.IA), vgen.N(uint64(w.Final.Rtr)), w.Final.Stop)
 	default:
-		fin = vgen.App("Network.NoRoute", vgen.N(uint64(w.Final.IA)), vgen.N(uint64(w.Final.Rtr)))
+		fin = vgen.App("Network.NoRoute", IATerm(w.Final.IA), vgen.N(uint64(w.Final.Rtr)))
 	}
 	return vgen.Pair(vgen.List(ss), fin)
 }
